@@ -208,6 +208,137 @@ func (o *Origins) onlyStore(a *ssa.Alloc) ssa.Value {
 	return stored
 }
 
+// SpilledValue looks through the return sequence go/ssa emits for functions with defers and named results
+// (store result; rundefers; load result; return): for such a load it returns the value stored to the result variable
+// earlier in the same block, provided no closure writes to that variable (a deferred function could change it).
+// Any other value is returned unchanged.
+func SpilledValue(v ssa.Value) ssa.Value {
+	u, ok := v.(*ssa.UnOp)
+	if !ok || u.Op != token.MUL {
+		return v
+	}
+	a, ok := u.X.(*ssa.Alloc)
+	if !ok || a.Referrers() == nil {
+		return v
+	}
+	blk := u.Block()
+	if blk == nil {
+		return v
+	}
+	sawDefers := false
+	var stored ssa.Value
+	for _, in := range blk.Instrs {
+		if in == ssa.Instruction(u) {
+			break
+		}
+		switch x := in.(type) {
+		case *ssa.RunDefers:
+			sawDefers = true
+		case *ssa.Store:
+			if x.Addr == ssa.Value(a) {
+				stored = x.Val
+				sawDefers = false
+			}
+		}
+	}
+	if stored == nil || !sawDefers {
+		return v
+	}
+	for _, r := range *a.Referrers() {
+		if mc, ok := r.(*ssa.MakeClosure); ok && ClosureStores(mc, a) {
+			// a closure that only ever replaces a nil result (if err == nil { err = … }) cannot turn the stored
+			// failure into a success: for necessary conditions of success the stored value stands
+			if SpillGuardOK == nil || !SpillGuardOK(mc, a) {
+				return v
+			}
+		}
+	}
+	return stored
+}
+
+// forwardedStore: store-to-load forwarding for a variable that lives in memory only because a closure captures it
+// (x, err := f(); if err != nil …  with err captured by a deferred function). The load u of a sees the value of the last
+// store to a on the straight-line path leading to it (same block, or up through blocks with a single predecessor),
+// provided nothing in between can write a: no RunDefers when a deferred closure writes a, no call at all when a closure
+// that is called (not deferred) writes a, and a does not escape otherwise.
+func forwardedStore(a *ssa.Alloc, u *ssa.UnOp) ssa.Value {
+	if a.Referrers() == nil {
+		return nil
+	}
+	deferredWriter, calledWriter := false, false
+	for _, r := range *a.Referrers() {
+		switch r := r.(type) {
+		case *ssa.Store:
+			if r.Addr != ssa.Value(a) {
+				return nil // the address itself is stored somewhere
+			}
+		case *ssa.UnOp, *ssa.DebugRef:
+		case *ssa.MakeClosure:
+			if !ClosureStores(r, a) {
+				continue
+			}
+			onlyDeferred := r.Referrers() != nil
+			if onlyDeferred {
+				for _, rr := range *r.Referrers() {
+					if d, isDefer := rr.(*ssa.Defer); !isDefer || d.Call.Value != ssa.Value(r) {
+						if _, isDbg := rr.(*ssa.DebugRef); !isDbg {
+							onlyDeferred = false
+						}
+					}
+				}
+			}
+			if onlyDeferred {
+				deferredWriter = true
+			} else {
+				calledWriter = true
+			}
+		default:
+			return nil // escapes (address passed on, field address taken, …)
+		}
+	}
+	if !deferredWriter && !calledWriter {
+		return nil // several plain stores: a value that differs per path, left to φ-less description
+	}
+	blk := u.Block()
+	limit := ssa.Instruction(u)
+	for depth := 0; depth < 6 && blk != nil; depth++ {
+		var last ssa.Value
+		killed := false
+		for _, in := range blk.Instrs {
+			if in == limit {
+				break
+			}
+			switch x := in.(type) {
+			case *ssa.Store:
+				if x.Addr == ssa.Value(a) {
+					last, killed = x.Val, false
+				}
+			case *ssa.RunDefers:
+				if deferredWriter {
+					last, killed = nil, true
+				}
+			case ssa.CallInstruction:
+				if calledWriter {
+					last, killed = nil, true
+				}
+			}
+		}
+		if last != nil {
+			return last
+		}
+		if killed || len(blk.Preds) != 1 {
+			return nil
+		}
+		blk = blk.Preds[0]
+		limit = nil
+	}
+	return nil
+}
+
+// SpillGuardOK, when set, reports that every write of the closure to the captured result variable is reached only
+// while that variable is nil.
+var SpillGuardOK func(mc *ssa.MakeClosure, cell *ssa.Alloc) bool
+
 // CellValue describes the content of a captured variable cell (the binding of a closure's free variable) when it is
 // assigned exactly once; nil otherwise.
 func (o *Origins) CellValue(cell ssa.Value) *Term {
@@ -383,6 +514,12 @@ func (o *Origins) load(u *ssa.UnOp) *Term {
 	case *ssa.Alloc:
 		if s := o.onlyStore(a); s != nil {
 			return o.Of(s)
+		}
+		if sv := SpilledValue(u); sv != ssa.Value(u) {
+			return o.Of(sv)
+		}
+		if fw := forwardedStore(a, u); fw != nil {
+			return o.Of(fw)
 		}
 		if lit := o.structLit(a, u); lit != nil {
 			return lit
